@@ -35,6 +35,7 @@ typedef int  (*ptg_initial_fn)(parsec_taskpool_t *tp);      /* initial_number_ta
 typedef void (*ptg_unmake_fn)(parsec_taskpool_t *tp);
 void ptg_rt_set_adt(parsec_arena_datatype_t *adt);
 void ptg_rt_unset_adt(parsec_arena_datatype_t *adt);
-int  ptg_rt_main(int argc, char **argv, int nglobals, ptg_make_fn mk, ptg_initial_fn ini, ptg_unmake_fn unmk);
+/* ini: initial_number_tasks; inited: non-zero once every <class>_internal_init has run (sync_point == 0) */
+int  ptg_rt_main(int argc, char **argv, int nglobals, ptg_make_fn mk, ptg_initial_fn ini, ptg_initial_fn inited, ptg_unmake_fn unmk);
 
 #endif
